@@ -76,8 +76,8 @@ def scenario_extra(kind, scen, what, quick=4, thorough=40):
     return f
 
 
-def m1prop(pid, props_file, prefixes, quick=300, thorough=6000, extra=None):
-    return Prop(pid, harness='m1', entries=['m1c', 'm1c_h', 'm1s'], props_file=props_file, quick_n=quick, thorough_n=thorough,
+def m1prop(pid, props_file, prefixes, quick=300, thorough=6000, extra=None, spec_entries=None):
+    return Prop(pid, harness='m1', entries=['m1c', 'm1c_h', 'm1c_fresh', 'm1s'], spec_entries=spec_entries, props_file=props_file, quick_n=quick, thorough_n=thorough,
                 trusted=M1_TRUSTED, assumptions=M1_ASSUME, rule=M1_RULE, design_ref='5 ' + pid, confirm_slow=True,
                 monitor_prefixes=prefixes, search_n=3000, harness_timeout=1200, extra=extra)
 
@@ -88,7 +88,7 @@ PROPS['C07'] = m1prop('C07', 'theories/Props/C07.v', ['C07', 'hang', 'panic'],
 PROPS['C09'] = m1prop('C09', 'theories/Props/C09.v', ['C09'])
 PROPS['C10'] = m1prop('C10', 'theories/Props/C10.v', ['C10'])
 PROPS['C11'] = m1prop('C11', 'theories/Props/C11.v', ['C11'])
-PROPS['C16'] = m1prop('C16', 'theories/Props/C16.v', ['C16', 'panic'],
+PROPS['C16'] = m1prop('C16', 'theories/Props/C16.v', ['C16', 'panic'], spec_entries=['m1c_fresh'],
                       extra=scenario_extra('C16-send-racing-stop', 5, 'real sockets: 4 goroutines send on a charge point while Stop is called, 40 rounds; nothing may crash or block (F10)'))
 
 M1_NOTE = 'Trusted: Coq kernel + vm_compute, extraction (ExtrOcamlBasic only), the Go harness with its ws doubles and quiescence detector, the hand-written LTS. Interleavings finer than one handler / one pump iteration are not in this model (DESIGN.md section 8).'
@@ -118,7 +118,7 @@ MANIFEST_TEXT['C16'] = dict(
     note=M1_NOTE + ' Goroutine leak and blocked synchronous callers are checked by the harness watchdog only.',
     technique='Coq invariant proofs over an LTS + differential correspondence + trace monitors')
 
-PROPS['C08'] = Prop('C08', harness='c08', entries=['c08rt', 'm1c', 'm1c_h', 'm1s'], props_file='theories/Props/C08.v', quick_n=250, thorough_n=4000,
+PROPS['C08'] = Prop('C08', harness='c08', entries=['c08rt', 'm1c', 'm1c_h', 'm1c_fresh', 'm1s'], props_file='theories/Props/C08.v', quick_n=250, thorough_n=4000,
                     trusted=M1_TRUSTED + ['real-time lane: wall-clock measurements (ms) of writes and cancellations taken inside the ws doubles and the callbacks'],
                     assumptions=M1_ASSUME + ['real-time lane: a timeout earlier than 6 ms before the deadline counts as early (measurement tolerance); lateness is only checked as "concluded within the observation window (deadline + >= 60 ms)"'],
                     rule='real-time lane: 5 client + 5 server scenarios x 2 protocol versions on the real timers (timeout 160 ms, random jitter 0-24 ms): plain timeout + next request, reply late in the window, disconnect / reconnect across the deadline, answered-then-idle, staggered deadlines of two clients, session end + reconnect of the same id; the measured timed trace is the input of the Coq monitor. Virtual lane: ' + M1_RULE,
